@@ -105,6 +105,9 @@ def run(tier, seed, out):
     # --- parameter lists: order and joining
     for _ in range(n // 5):
         params = [(rand_text(rng, 1).replace('&', 'k').replace('=', 'k') or 'k', rng.choice(vals[:40])) for _ in range(rng.randrange(0, 5))]
+        if params and _ % 3 == 0:
+            # a parameter NAME may occur more than once: both occurrences are transmitted, in their positions
+            params.insert(rng.randrange(0, len(params) + 1), (params[0][0], rng.choice(vals[:40])))
         count('urlencodeParams', repr(params))
         try:
             s = WARequest.urlencodeParams(params)
